@@ -3,7 +3,11 @@
 
 use serde::Deserialize;
 
-use crate::{absent_nullable::AbsentNullable, traits::Serial, KeepSections, Settings, SlinkyError};
+use crate::{
+    absent_nullable::{deserialize_non_null_string, AbsentNullable},
+    traits::Serial,
+    KeepSections, Settings, SlinkyError,
+};
 
 #[derive(PartialEq, Debug, Clone)]
 pub struct VramClass {
@@ -24,6 +28,7 @@ pub struct VramClass {
 #[derive(Deserialize, PartialEq, Debug)]
 #[serde(deny_unknown_fields)]
 pub(crate) struct VramClassSerial {
+    #[serde(deserialize_with = "deserialize_non_null_string")]
     pub name: String,
 
     #[serde(default)]
